@@ -138,29 +138,32 @@ func (r *Runner[T]) reloadSkipRestart(newConfig *Config[T]) {
 	}
 }
 
-// hasMembershipChanged checks if the set of runnables has changed between configurations
+// hasMembershipChanged checks if the runnables of the two configurations differ. Entries are
+// compared by their string representation, with their multiplicity: a configuration may list
+// the same runnable more than once, and [a, a, b] and [a, b, b] have the same length and the
+// same set of names but not the same members. Reloading such a pair in place would leave a
+// running twice and b once while the stored configuration says the opposite.
 func hasMembershipChanged[T runnable](oldConfig, newConfig *Config[T]) bool {
 	if len(oldConfig.Entries) != len(newConfig.Entries) {
 		// Different number of entries means membership changed
 		return true
 	}
 
-	// Create a map of old runnables by their string representation
-	oldMap := make(map[string]bool)
+	// Count how often each name occurs in the old configuration
+	counts := make(map[string]int, len(oldConfig.Entries))
 	for _, entry := range oldConfig.Entries {
-		oldMap[entry.Runnable.String()] = true
+		counts[entry.Runnable.String()]++
 	}
 
-	// Check if any new runnable is not in the old set
-	newMap := make(map[string]bool)
+	// Every new entry must use up one occurrence of its name. The lengths are equal, so if
+	// none is missing the two name multisets are the same.
 	for _, entry := range newConfig.Entries {
-		if !oldMap[entry.Runnable.String()] {
+		name := entry.Runnable.String()
+		if counts[name] == 0 {
 			return true
 		}
-		newMap[entry.Runnable.String()] = true
+		counts[name]--
 	}
 
-	// With duplicate names the lengths can agree while an old runnable is missing from
-	// the new configuration, so the two name sets must be compared in both directions.
-	return len(newMap) != len(oldMap)
+	return false
 }
